@@ -132,4 +132,6 @@ def run(ck):
     if t2_mm and not found:
         ck.report("corr:T2-body", "the model of the code generator (span stamps) no longer matches the real expansion (%d inputs differ)" % len(t2_mm),
                   dict(broken="correspondence T2 (token spans)", theorems=["C20_stamp_is_own_span"], first=t2_mm[:3]), no_input=True)
+    import parsetie
+    parsetie.light_tie(ck, "C20: the compiled programs' expectations read patterns with the model parser")
     ck.assumptions += ["where rustc places the primary span of a type error is observed (rustc is the oracle), not modelled; the theorem is about which span each template token is stamped with"]
